@@ -607,10 +607,16 @@ type C18Storm struct {
 	Cancel []bool `json:"cancel"` // which keys are cancelled by a second goroutine while the feeding is going on
 	Inter  bool   `json:"inter"`  // feed round-robin over the keys instead of key by key
 	Ser    bool   `json:"ser"`
+	// Replies: every envelope read on a logical connection is answered on it (from a goroutine of its own, so that a
+	// reply that can no longer be written does not keep its reader from reading on)
+	Replies bool `json:"replies,omitempty"`
+	// WriteFaults: with Replies, the shared transport fails the write of every third reply
+	WriteFaults bool `json:"write_faults,omitempty"`
 }
 
 func genC18Storm(t *rapid.T) C18Storm {
-	c := C18Storm{Keys: rapid.SampledFrom([]int{2, 4, 8, 16, 24}).Draw(t, "keys"), Msgs: rapid.IntRange(1, 4).Draw(t, "msgs"), Inter: rapid.Bool().Draw(t, "inter"), Ser: rapid.Bool().Draw(t, "ser")}
+	c := C18Storm{Keys: rapid.SampledFrom([]int{2, 4, 8, 16, 24}).Draw(t, "keys"), Msgs: rapid.IntRange(1, 4).Draw(t, "msgs"), Inter: rapid.Bool().Draw(t, "inter"), Ser: rapid.Bool().Draw(t, "ser"), Replies: rapid.Bool().Draw(t, "replies")}
+	c.WriteFaults = c.Replies && rapid.Bool().Draw(t, "write_faults")
 	for i := 0; i < c.Keys; i++ {
 		c.Cancel = append(c.Cancel, rapid.IntRange(0, 2).Draw(t, "cancel") == 0)
 	}
@@ -633,6 +639,11 @@ func execC18Storm(t *testing.T, c C18Storm) (v Verdict) {
 	res := kit.Bubble(t, func() {
 		bg := context.Background()
 		shared := kit.NewLink("shared", kit.NewTap(), c.Ser)
+		if c.WriteFaults {
+			shared.B.FailWriteIf(func(r *goat.Rpc) bool { return r.GetId()%3 == 0 })
+		}
+		rctx, rcancel := context.WithCancel(bg)
+		defer rcancel()
 		dm := goat.NewDemux(bg, shared.B, func(r *goat.Rpc) string { return r.GetHeader().GetSource() }, func(rw goat.RpcReadWriter) {
 			l := &life{}
 			mu.Lock()
@@ -652,6 +663,11 @@ func execC18Storm(t *testing.T, c C18Storm) (v Verdict) {
 					}
 					l.ids = append(l.ids, r.GetId())
 					mu.Unlock()
+					if c.Replies {
+						go func() {
+							_ = rw.Write(rctx, &goat.Rpc{Id: r.GetId(), Header: &goatorepo.RequestHeader{Method: "/x/y", Source: "srv", Destination: r.GetHeader().GetSource()}})
+						}()
+					}
 				}
 			}()
 		})
@@ -696,6 +712,9 @@ func execC18Storm(t *testing.T, c C18Storm) (v Verdict) {
 		kit.Settle()
 		close(start)
 		wg.Wait()
+		kit.Settle()
+		rcancel() // replies that can no longer be written give up
+		shared.A.ReadAvailable()
 		kit.Settle()
 		dm.Stop()
 		shared.Close()
@@ -759,7 +778,7 @@ func execC18Storm(t *testing.T, c C18Storm) (v Verdict) {
 			v.failf("%s (never cancelled) received %d of its %d envelopes: %v", key, len(all), c.Msgs, all)
 		}
 	}
-	v.Info = kit.CaseInfo{Labels: []string{"storm", fmt.Sprintf("storm.cancels=%v", cancelled > 0), fmt.Sprintf("storm.interleaved=%v", c.Inter)}, NonTrivial: cancelled > 0 && c.Keys >= 4, Key: fmt.Sprintf("%+v", c), Sample: c}
+	v.Info = kit.CaseInfo{Labels: []string{"storm", fmt.Sprintf("storm.cancels=%v", cancelled > 0), fmt.Sprintf("storm.interleaved=%v", c.Inter), fmt.Sprintf("storm.write_faults=%v", c.WriteFaults)}, NonTrivial: cancelled > 0 && c.Keys >= 4, Key: fmt.Sprintf("%+v", c), Sample: c}
 	return
 }
 
